@@ -170,6 +170,11 @@ def gen_doc(rng, deep=False):
             toks += [['S', rng.choice(['code', 'pre', 'b']), [], False], ['T', rng.choice(WS_TEXTS)], ['S', 'i', [], False], ['T', rng.choice(WS_TEXTS)],
                      ['E', 'i'], ['E', toks[-0][1] if False else 'X']]
             toks[-1] = ['E', toks[-6][1]]
+            if rng.random() < 0.7:
+                # the outer preformatted element goes on after the inner one is closed: text, an inline child, text
+                toks += [['T', rng.choice(WS_TEXTS)], ['S', rng.choice(['span', 'b', 'a']), [], False], ['T', rng.choice(WS_TEXTS)]]
+                toks.append(['E', toks[-2][1]])
+                toks.append(['T', rng.choice(WS_TEXTS)])
         toks += [['E', toks[1][1]], ['T', rng.choice(WS_TEXTS)], ['S', 'p', [], False], ['T', rng.choice(WS_TEXTS)], ['E', 'p'], ['E', 'div']]
     elif r < 0.9:
         # long inline run
